@@ -4,7 +4,7 @@
 (* descriptors x configurations whose plugin RUNS are observed (exit       *)
 (* status, response, file, functions, compile result, schema).             *)
 (***************************************************************************)
-EXTENDS Shapes
+EXTENDS Shapes, SequencesExt
 
 ScalarTys == <<"double", "float", "int64", "uint64", "int32", "fixed64", "fixed32", "bool", "string", "bytes",
                "uint32", "sfixed32", "sfixed64", "sint32", "sint64">>
@@ -48,4 +48,193 @@ NamingShapes == <<
        Ovr(<<KV("Root.Subs.Str", "ovr_list"), KV("Root.Dict.Str", "ovr_map")>>)) >>
 
 GenMapShapes == TypeTableShapes \o NamingShapes \o AllSessionShapes
+
+---------------------------------------------------------------------------
+\* C10: flags, validators, plan modifiers, comments, injected fields, placeholder
+
+CL(pre, w, post) == [pre |-> pre, w |-> w, post |-> post]
+Commented(f, c) == [f EXCEPT !.comment = c]
+
+\* comment patterns: single line; two lines; leading / trailing blanks; CRLF; tab-indented continuation;
+\* an empty line in the middle; trailing empty lines
+Com1 == <<CL(" ", <<"Str", "is", "a", "string">>, "")>>
+Com2 == <<CL(" ", <<"Str", "is", "a", "string">>, ""), CL(" ", <<"with", "a", "continuation">>, "")>>
+Com3 == <<CL("   ", <<"leading", "and", "trailing">>, "   ")>>
+Com4 == <<CL(" ", <<"line", "one">>, "\r"), CL(" ", <<"line", "two">>, "\r")>>
+Com5 == <<CL(" ", <<"first">>, ""), CL("\t  ", <<"indented", "second">>, " ")>>
+Com6 == <<CL(" ", <<"before", "the", "gap">>, ""), CL("", <<>>, ""), CL(" ", <<"after", "it">>, "")>>
+Com7 == <<CL(" ", <<"ends", "with", "blank", "lines">>, ""), CL("", <<>>, ""), CL(" ", <<>>, "")>>
+Comments == <<Com1, Com2, Com3, Com4, Com5, Com6, Com7>>
+
+LeafC(c) == Msg("Leaf", <<Commented(Fld("Str", 1, "string"), c), Commented(Fld("Num", 2, "int32"), Com1)>>, <<>>)
+FlagRoot(c) == Msg("Root", <<Commented(Fld("Str", 1, "string"), c), Commented(MsgF("Sub", 2, "Leaf"), Com2),
+                            Commented(Rep(MsgF("Subs", 3, "Leaf")), Com3), Commented(MapOf(MsgF("Dict", 4, "Leaf")), Com4),
+                            Commented(Rep(Fld("Items", 5, "string")), Com5), NonNull(Embed(MsgF("Inner", 6, "Inner"))),
+                            MsgF("Nothing", 7, "Empty")>>, <<>>)
+InnerC == Msg("Inner", <<Commented(Fld("Flag", 1, "bool"), Com6)>>, <<>>)
+FlagDesc(c) == Desc(<<LeafC(c), InnerC, EmptyM, FlagRoot(c)>>)
+
+Inj(name, ty, req, comp, opt) == [name |-> name, type |-> ty, required |-> req, computed |-> comp, optional |-> opt]
+
+\* key sets for the flag lists: full paths, Message.field keys, mixtures
+FlagKeySets == << <<>>, <<"Root.Str">>, <<"Leaf.Str">>, <<"Root.Sub.Str">>, <<"Root.Subs">>, <<"Root.Str", "Root.Dict.Num", "Inner.Flag">>,
+                  <<"Root.Sub", "Leaf.Num">> >>
+
+FlagCfg(r, c, s, u) == [BaseCfg EXCEPT !.required = FlagKeySets[r], !.computed = FlagKeySets[c], !.sensitive = FlagKeySets[s], !.usfu = u]
+
+CommentShapes == [i \in DOMAIN Comments |-> Shape("c10.comment." \o ToString(i), FlagDesc(Comments[i]), BaseCfg)]
+
+FlagShapesQuick == <<
+  Shape("c10.flags.1", FlagDesc(Com1), FlagCfg(2, 1, 1, FALSE)),
+  Shape("c10.flags.2", FlagDesc(Com1), FlagCfg(1, 3, 1, FALSE)),
+  Shape("c10.flags.3", FlagDesc(Com1), FlagCfg(1, 1, 4, FALSE)),
+  Shape("c10.flags.4", FlagDesc(Com1), FlagCfg(6, 6, 6, TRUE)),
+  Shape("c10.flags.5", FlagDesc(Com1), FlagCfg(7, 2, 5, TRUE)),
+  Shape("c10.flags.6", FlagDesc(Com1), FlagCfg(3, 7, 2, TRUE)),
+  Shape("c10.usfu.on", FlagDesc(Com1), FlagCfg(1, 6, 1, TRUE)),
+  Shape("c10.usfu.explicit", FlagDesc(Com1), [FlagCfg(1, 6, 1, TRUE) EXCEPT !.planmodifiers = <<[k |-> "Root.Str", v |-> <<"2">>]>>]),
+  Shape("c10.val.1", FlagDesc(Com1), [BaseCfg EXCEPT !.validators = <<[k |-> "Root.Str", v |-> <<"1">>], [k |-> "Leaf.Num", v |-> <<"2", "1">>]>>,
+                                                    !.planmodifiers = <<[k |-> "Root.Sub.Str", v |-> <<"1", "3">>], [k |-> "Leaf.Str", v |-> <<"2">>]>>]),
+  Shape("c10.val.2", FlagDesc(Com1), [BaseCfg EXCEPT !.validators = <<[k |-> "Root.Subs", v |-> <<"3", "3">>], [k |-> "Inner.Flag", v |-> <<"1">>]>>,
+                                                    !.planmodifiers = <<[k |-> "Root.Items", v |-> <<"1">>]>>, !.sort = TRUE]),
+  Shape("c10.inj.1", FlagDesc(Com1), [BaseCfg EXCEPT !.injected = <<[k |-> "Root", v |-> <<Inj("id", "string", FALSE, TRUE, FALSE)>>]>>]),
+  Shape("c10.inj.2", FlagDesc(Com1), [BaseCfg EXCEPT !.injected = <<[k |-> "Root", v |-> <<Inj("id", "string", FALSE, TRUE, FALSE), Inj("rev", "int64", TRUE, FALSE, FALSE)>>],
+                                                                    [k |-> "Root.Sub", v |-> <<Inj("extra", "bool", FALSE, FALSE, TRUE)>>],
+                                                                    [k |-> "Root.Subs", v |-> <<Inj("idx", "int64", FALSE, TRUE, TRUE)>>]>>]) >>
+
+\* thorough: the full product of the flag key sets
+FlagShapesFull ==
+  LET combos == SetToSeq({<<r, c, s, u>> : r \in DOMAIN FlagKeySets, c \in DOMAIN FlagKeySets, s \in DOMAIN FlagKeySets, u \in BOOLEAN})
+  IN [i \in DOMAIN combos |-> Shape("c10.full." \o ToString(i), FlagDesc(Com1), FlagCfg(combos[i][1], combos[i][2], combos[i][3], combos[i][4]))]
+
+GenFlagShapes(long) == CommentShapes \o FlagShapesQuick \o (IF long THEN FlagShapesFull ELSE <<>>)
+
+---------------------------------------------------------------------------
+\* C12: only the selected types, independent of the rest of the request
+
+SelRoot == Msg("Root", <<Fld("Str", 1, "string"), MsgF("Sub", 2, "Leaf")>>, <<>>)
+SelOther == Msg("Other", <<Fld("Num", 1, "int32"), Rep(Fld("Items", 2, "string")), InOneof(Fld("BranchA", 3, "string"), "Grp"), InOneof(MsgF("BranchB", 4, "Leaf"), "Grp")>>, <<"Grp">>)
+SelThird == Msg("Third", <<Fld("Flag", 1, "bool"), MapOf(MsgF("Dict", 2, "Leaf"))>>, <<>>)
+SelExtra == Msg("Extra", <<Fld("Raw", 1, "bytes"), MsgF("Sub", 2, "Leaf")>>, <<>>)
+SelMsgs == <<Leaf, SelRoot, SelOther, SelThird>>
+SelNames == <<"Leaf", "Root", "Other", "Third">>
+SelDep == [pkg |-> "depx", msgs |-> <<Msg("Poison", <<Fld("Str", 1, "string")>>, <<>>), Msg("Bad", <<Fld("Num", 1, "int64")>>, <<>>)>>]
+
+SelDesc(ext) == [pkg |-> "tp",
+                 msgs |-> IF ext = "msg" THEN SelMsgs \o <<SelExtra>> ELSE SelMsgs,
+                 deps |-> IF ext = "dep" THEN <<SelDep>> ELSE <<>>]
+
+NonEmptySubsets(S) == (SUBSET S) \ {{}}
+SelRuns(sort, exts) == SetToSeq({<<T, e>> : T \in NonEmptySubsets({1, 2, 3, 4}), e \in exts})
+
+\* one shape per (run, selected root); the functions of a type must not depend on the run (same group)
+SelShapesOf(sort, exts) ==
+  LET runs == SelRuns(sort, exts)
+      srt == IF sort THEN "s" ELSE "u"
+      perRun(i) == LET T == runs[i][1]
+                       types == SetToSeq({SelNames[k] : k \in T})
+                       cfg == [BaseCfg EXCEPT !.types = types, !.sort = sort]
+                   IN [j \in DOMAIN types |->
+                        [Shape("c12." \o srt \o "." \o ToString(i) \o "." \o types[j], SelDesc(runs[i][2]), cfg) EXCEPT
+                           !.root = types[j], !.run = "c12." \o srt \o "." \o ToString(i), !.group = "c12." \o srt,
+                           !.gchecks = <<GCheck("fn", "C12", "C12.text_independent")>>]]
+  IN FlattenSeq([i \in DOMAIN runs |-> perRun(i)])
+
+GenSelectShapes(long) ==
+  IF long THEN SelShapesOf(FALSE, {"none", "msg", "dep"}) \o SelShapesOf(TRUE, {"none", "msg", "dep"})
+  ELSE SelShapesOf(FALSE, {"none", "dep"}) \o SelShapesOf(TRUE, {"msg"})
+
+---------------------------------------------------------------------------
+\* C18: a selected type is generated whole or not at all
+
+Healthy == Msg("Root", <<Fld("Str", 1, "string"), MsgF("Sub", 2, "Leaf")>>, <<>>)
+\* the unmappable field, by kind
+BadField(kind) ==
+  CASE kind = "time" -> StdTime("Bad", 9)
+    [] kind = "dur" -> StdDur("Bad", 9)
+    [] kind = "mapkey" -> [MapOf(Fld("Bad", 9, "string")) EXCEPT !.mapkey = "int32"]
+    [] OTHER -> Fld("Bad", 9, "string")
+\* where it sits below the selected type Poison: [msgs, path of the bad field]
+PoisonAt(pos, kind) ==
+  LET bf == BadField(kind)
+      holder == Msg("Mid", <<Fld("Num", 1, "int32"), bf>>, <<>>)
+  IN CASE pos = "top" -> [msgs |-> <<Msg("Poison", <<Fld("Str", 1, "string"), bf>>, <<>>)>>, key |-> "Poison.Bad"]
+       [] pos = "nested" -> [msgs |-> <<holder, Msg("Poison", <<Fld("Str", 1, "string"), MsgF("Sub", 2, "Mid")>>, <<>>)>>, key |-> "Poison.Sub.Bad"]
+       [] pos = "list" -> [msgs |-> <<holder, Msg("Poison", <<Fld("Str", 1, "string"), Rep(MsgF("Subs", 2, "Mid"))>>, <<>>)>>, key |-> "Poison.Subs.Bad"]
+       [] pos = "map" -> [msgs |-> <<holder, Msg("Poison", <<Fld("Str", 1, "string"), MapOf(MsgF("Dict", 2, "Mid"))>>, <<>>)>>, key |-> "Mid.Bad"]
+       [] pos = "embed" -> [msgs |-> <<holder, Msg("Poison", <<Fld("Str", 1, "string"), NonNull(Embed(MsgF("Mid", 2, "Mid")))>>, <<>>)>>, key |-> "Mid.Bad"]
+       [] pos = "oneof" -> [msgs |-> <<holder, Msg("Poison", <<InOneof(Fld("BranchA", 1, "string"), "Grp"), InOneof(MsgF("BranchB", 2, "Mid"), "Grp")>>, <<"Grp">>)>>, key |-> "Poison.BranchB.Bad"]
+       [] OTHER -> [msgs |-> <<holder, Msg("Outer", <<Fld("Flag", 1, "bool"), MsgF("Mid", 2, "Mid")>>, <<>>),
+                               Msg("Poison", <<Fld("Str", 1, "string"), MsgF("Sub", 2, "Outer")>>, <<>>)>>, key |-> "Poison.Sub.Mid.Bad"]
+
+WholeCfg(kind, excl) == [BaseCfg EXCEPT !.types = <<"Poison", "Root">>, !.timetype = kind # "time", !.durationtype = kind # "dur", !.exclude = excl]
+
+WholeShapesFor(pos, kind) ==
+  LET pa == PoisonAt(pos, kind)
+      d == Desc(<<Leaf>> \o pa.msgs \o <<Healthy>>)
+      g == "c18." \o pos \o "." \o kind
+      mk(tag, cfg, root) == [Shape(g \o "." \o tag \o "." \o root, d, cfg) EXCEPT !.root = root, !.run = g \o "." \o tag, !.group = g,
+                                  !.gchecks = <<GCheck("fn", "C18", "C18.others_intact")>>]
+  IN << mk("0base", [WholeCfg(kind, <<>>) EXCEPT !.types = <<"Root">>], "Root"),
+        mk("1bad", WholeCfg(kind, <<>>), "Root"), mk("1bad", WholeCfg(kind, <<>>), "Poison"),
+        mk("2excl", WholeCfg(kind, <<pa.key>>), "Root"), mk("2excl", WholeCfg(kind, <<pa.key>>), "Poison") >>
+
+Positions == <<"top", "nested", "list", "map", "embed", "oneof", "deep">>
+BadKinds == <<"time", "dur", "mapkey">>
+GenWholeShapes(long) ==
+  IF long THEN FlattenSeq([i \in 1..(Len(Positions) * Len(BadKinds)) |->
+                 WholeShapesFor(Positions[((i - 1) \div Len(BadKinds)) + 1], BadKinds[((i - 1) % Len(BadKinds)) + 1])])
+  ELSE WholeShapesFor("top", "time") \o WholeShapesFor("nested", "mapkey") \o WholeShapesFor("list", "dur")
+       \o WholeShapesFor("map", "time") \o WholeShapesFor("embed", "mapkey") \o WholeShapesFor("oneof", "dur") \o WholeShapesFor("deep", "time")
+
+---------------------------------------------------------------------------
+\* C16: command line and YAML are equivalent channels; C14: determinism
+
+ChanOpts == <<"types", "exclude_fields", "computed_fields", "required_fields", "sensitive_fields",
+              "default_package_name", "target_package_name", "duration_custom_type", "sort">>
+Modes == <<"yaml", "cli", "both">>
+ChanAll(m) == [i \in DOMAIN ChanOpts |-> KV(ChanOpts[i], m)]
+ChanOne(i, m) == <<KV(ChanOpts[i], m)>>
+ChanMix(k) == [i \in DOMAIN ChanOpts |-> KV(ChanOpts[i], Modes[((i * k + k) % 3) + 1])]
+
+ChanRoot == Msg("Root", <<Fld("Str", 1, "string"), Fld("Extra", 2, "string"), MsgF("Sub", 3, "Leaf"),
+                          Cast(Fld("Dur", 4, "int64"), "Duration"), Fld("Zed", 5, "int32"), Fld("Alpha", 6, "bool")>>, <<>>)
+ChanOther == Msg("Other", <<Fld("Num", 1, "int32")>>, <<>>)
+ChanCfg == [BaseCfg EXCEPT !.types = <<"Root", "Other">>, !.exclude = <<"Root.Extra">>, !.computed = <<"Root.Str", "Other.Num">>,
+                           !.required = <<"Leaf.Str">>, !.sensitive = <<"Root.Sub.Str", "Root.Alpha">>, !.separate = TRUE,
+                           !.durationcustom = "Duration", !.sort = TRUE]
+
+ChanAlts(long) ==
+  <<Alt("all.cli", "C16.channel_equiv", ChanAll("cli"), 0, <<>>), Alt("all.both", "C16.cli_wins", ChanAll("both"), 0, <<>>)>>
+  \o [i \in DOMAIN ChanOpts |-> Alt("one.cli." \o ChanOpts[i], "C16.channel_equiv", ChanOne(i, "cli"), 0, <<>>)]
+  \o [i \in DOMAIN ChanOpts |-> Alt("one.both." \o ChanOpts[i], "C16.cli_wins", ChanOne(i, "both"), 0, <<>>)]
+  \o [k \in 1..(IF long THEN 40 ELSE 8) |-> Alt("mix." \o ToString(k), "C16.channel_equiv", ChanMix(k), k, <<>>)]
+
+GenConfigShapes(long) == <<
+  [Shape("c16.chan", Desc(<<Leaf, ChanRoot, ChanOther>>), [ChanCfg EXCEPT !.alts = ChanAlts(long)]) EXCEPT !.root = "Root"],
+  [Shape("c16.chan.unsorted", Desc(<<Leaf, ChanRoot, ChanOther>>), [ChanCfg EXCEPT !.sort = FALSE, !.alts = ChanAlts(FALSE)]) EXCEPT !.root = "Other", !.run = "c16.chan.unsorted"],
+  Shape("c16.notypes", Desc(<<Leaf, ChanRoot>>), [BaseCfg EXCEPT !.fault = "notypes"]),
+  Shape("c16.notypes.cli", Desc(<<Leaf, ChanRoot>>), [BaseCfg EXCEPT !.fault = "notypes", !.channel = ChanAll("cli")]),
+  Shape("c16.missingfile", Desc(<<Leaf, ChanRoot>>), [BaseCfg EXCEPT !.fault = "missingfile", !.channel = ChanAll("cli")]),
+  Shape("c16.malformed", Desc(<<Leaf, ChanRoot>>), [BaseCfg EXCEPT !.fault = "malformed", !.channel = ChanAll("cli")]) >>
+
+\* C14: a configuration with several entries in every map / list option; the same request again and
+\* again, and with permuted entry orders
+DetCfg == [BaseCfg EXCEPT !.types = <<"Root", "Other", "Leaf">>, !.exclude = <<"Root.Extra", "Other.Num">>,
+             !.computed = <<"Root.Str", "Leaf.Str", "Root.Alpha">>, !.required = <<"Root.Zed", "Root.Sub.Str">>,
+             !.sensitive = <<"Root.Sub", "Root.Dur", "Leaf.Num">>, !.durationcustom = "Duration", !.usfu = TRUE,
+             !.nameoverrides = <<KV("Root.Str", "ovr_a"), KV("Leaf.Num", "ovr_b"), KV("Root.Zed", "ovr_c")>>,
+             !.validators = <<[k |-> "Root.Str", v |-> <<"1", "2">>], [k |-> "Leaf.Str", v |-> <<"3">>], [k |-> "Root.Zed", v |-> <<"2">>]>>,
+             !.planmodifiers = <<[k |-> "Root.Alpha", v |-> <<"1">>], [k |-> "Leaf.Num", v |-> <<"2", "3">>], [k |-> "Root.Sub", v |-> <<"3">>]>>,
+             !.injected = <<[k |-> "Root", v |-> <<Inj("id", "string", FALSE, TRUE, FALSE)>>], [k |-> "Root.Sub", v |-> <<Inj("rev", "int64", FALSE, TRUE, TRUE)>>],
+                            [k |-> "Leaf", v |-> <<Inj("extra", "bool", FALSE, FALSE, TRUE)>>]>>,
+             !.customtypes = <<KV("Root.Alpha", "CustB"), KV("Leaf.Num", "CustN")>>, !.suffixes = <<KV("CustB", "SufB"), KV("CustN", "SufN")>>]
+DetLeaf == Msg("Leaf", <<Fld("Str", 1, "string"), Fld("Num", 2, "int32")>>, <<>>)
+DetAlts(long) ==
+  [k \in 1..(IF long THEN 40 ELSE 10) |-> Alt("repeat." \o ToString(k), "C14.same_sha", <<>>, 0, <<>>)]
+  \o [k \in 1..(IF long THEN 20 ELSE 5) |-> Alt("perm." \o ToString(k), "C14.same_sha", <<>>, k, <<>>)]
+  \o [k \in 1..(IF long THEN 10 ELSE 3) |-> Alt("cliperm." \o ToString(k), "C14.same_sha", ChanAll("cli"), 100 + k, <<>>)]
+GenDetShapes(long) == <<
+  [Shape("c14.multi", Desc(<<DetLeaf, ChanRoot, ChanOther>>), [DetCfg EXCEPT !.alts = DetAlts(long)]) EXCEPT !.root = "Root"],
+  [Shape("c14.sorted", Desc(<<DetLeaf, ChanRoot, ChanOther>>), [DetCfg EXCEPT !.sort = TRUE, !.alts = DetAlts(long)]) EXCEPT !.root = "Leaf", !.run = "c14.sorted"] >>
 =============================================================================
